@@ -23,5 +23,22 @@ CHECKS = {
         "Bounded (never counted as proved): completeness / duplicate-freeness of the walk and the tied-group-only repeat clause, every cut point "
         "and two quit/resume cycles on small tie-rich rulesets.",
    note="A-FP; float(repr(x))==x; ConfigParser as a map; termination of the recursive walk unverified; uuid refusal in main() not yet under contract"),
+ 'C04': dict(level='proof', technique=TECH,
+   text="_recursive_guesses is verified against the recursive spec Expand: it writes exactly the concatenations of one value per chosen group "
+        "in structure order with each mask applied to the tail built so far, every combination once, and returns the number of lines written; "
+        "the Markov branch writes the strings of its OMEN level with the count tied to the lines by the loop invariant of omen_generate_guesses.",
+   note="stdout can encode every value; MarkovCracker's sequence is C10's contract (assumed); WF for expansion (mask length = preceding alpha word length) is a precondition; "
+        "''.join uninterpreted; loader grouping of equal probabilities is under C14/C07"),
+ 'C09': dict(level='other', technique=TECH + "; stdout frame decided on the AST; CLI run as bounded stand-in",
+   text="Frame: no function of pcfg_guesser.py / lib_guesser writes to stdout except the single print in print_guess (all paths, syntactic). "
+        "Limit: _recursive_guesses / omen_generate_guesses write exactly take(limit, expansion); the session loop invariant keeps limit = N - lines >= 1, "
+        "so exactly min(N,total) lines, a prefix of the unlimited stream; negative limits refused. Bounded: the real CLI on Rules/Default.",
+   note="A-WFX (popped pre-terminals satisfy the expansion preconditions) assumed; syntactic frame does not see aliases of sys.stdout; honeyword modes under C16"),
+ 'C12': dict(level='other', technique=TECH + "; thread as a rely/guarantee environment (sequentialised)",
+   text="keypress: no exception escapes (input() may raise EOFError/ValueError/OSError), its only write is should_exit = True after reading 'q'. "
+        "run: every read of should_exit is an arbitrary Boolean that may be True only if a quit was requested; without a request the stream is complete "
+        "or cut exactly by the limit; with one the loop stops after a pop and before its guesses, or between two Markov guesses, after saving. "
+        "Bounded: five stdin conditions on the real CLI.",
+   note="threads are not executed: the interleaving is over-approximated by volatile reads (stated rely condition); status printing to stderr only is C09's frame"),
 }
 NOT_APPLICABLE = {}
